@@ -333,3 +333,5 @@ func identitySig(d *refmodel.Decl) string {
 	}
 	return sig
 }
+
+func genTxs(rt *rapid.T, m *machine) []sim.Tx { return gen.GenTxs(rt, m.copts) }
